@@ -244,7 +244,7 @@ T_IsSymmetric(t) == T_Equal(t, T_Transpose(t))
 (* Deterministic value palettes (seeded "pseudo-random" small integers)    *)
 (***************************************************************************)
 \* value in lo..hi from (seed, k); distinct neighbours so transposition slips show
-T_Hash(seed, k) == (seed * 7919 + k * 104729 + (k * k) * 31 + (seed * k) * 17 + 11) % 1000003
+T_Hash(seed, k) == LET s == seed % 9973 IN (s * 7919 + k * 104729 + (k * k) * 31 + (s * k) * 17 + 11) % 1000003
 T_Val(seed, k, lo, hi) == lo + (T_Hash(seed, k) % (hi - lo + 1))
 T_Fill(s, seed, lo, hi) == [shape |-> s, data |-> [k \in 1..T_Prod(s) |-> T_Val(seed, k, lo, hi)]]
 \* entries guaranteed non-zero (for divisors / positive diagonals): values in 1..hi
